@@ -198,6 +198,10 @@ def run_async(desc, tier, seed, res):
                 marks.append((c, n0, len(writes()), None))
             except Exception as e:
                 marks.append((c, n0, len(writes()), e))
+            if driver == "hasseb" and c.response is None:
+                # the hasseb driver does not wait for commands without an answer; a caller streaming hundreds of them would
+                # only fill the model's (unbounded, assumed) queue and starve the next query of its report - pace the stream
+                await asyncio.sleep(0.07 * (2 if c.sendtwice else 1))
         await refuse_all(d)
         return True
 
